@@ -148,7 +148,15 @@ pub struct Conn {
     /// total bytes the server endpoint has read / written (for observation)
     pub srv_read: u64,
     pub srv_written: u64,
+    /// further references to the server endpoint's open file description held outside the
+    /// simulated process' descriptor table (a forked child that inherited it): while > 0,
+    /// close() by the server neither closes the connection nor removes its epoll registrations
+    pub extra_refs: u32,
 }
+
+/// descriptor "numbers" under which registrations of closed-but-still-referenced descriptions
+/// stay in an epoll interest list (GHOST_BASE + connection id); no system call can name them
+pub const GHOST_BASE: Fd = 1 << 20;
 
 #[derive(Clone, Copy, Debug, PartialEq, Eq)]
 pub enum FdObj {
@@ -164,6 +172,8 @@ pub struct Listener {
     pub backlog: VecDeque<usize>,
     pub open: bool,
     pub activity: u64,
+    /// O_NONBLOCK on the listening descriptor (off after bind, as in the kernel)
+    pub nonblocking: bool,
 }
 
 #[derive(Debug, Default)]
@@ -289,7 +299,47 @@ impl World {
         if fd < 0 {
             return None;
         }
+        if fd >= GHOST_BASE {
+            let c = (fd - GHOST_BASE) as usize;
+            return if self.conns.get(c).map(|x| x.extra_refs > 0 && x.server_fd.is_none()).unwrap_or(false) { Some(FdObj::Stream(c)) } else { None };
+        }
         self.fds.get(fd as usize).and_then(|o| *o)
+    }
+
+    /// The simulated process forks: the child inherits every open stream descriptor and keeps
+    /// it open (it never uses it). From the parent's point of view nothing changes, except what
+    /// the kernel does when the parent closes such a descriptor: the open file description
+    /// lives on, so the peer sees no hang-up and epoll registrations made through the closed
+    /// descriptor stay active and can no longer be removed (EPOLL_CTL_DEL needs the descriptor).
+    pub fn fork_inherit(&mut self) {
+        self.n_syscalls += 1;
+        for i in 0..self.fds.len() {
+            if let Some(FdObj::Stream(c)) = self.fds[i] {
+                self.conns[c].extra_refs += 1;
+            }
+        }
+    }
+
+    /// The child exits: its references go away; descriptions the parent had already closed are
+    /// now really closed.
+    pub fn child_exit(&mut self) {
+        self.n_syscalls += 1;
+        for c in 0..self.conns.len() {
+            if self.conns[c].extra_refs > 0 {
+                let ghost = self.conns[c].server_fd.is_none();
+                if ghost {
+                    let g = GHOST_BASE + c as Fd;
+                    for ep in self.epolls.iter_mut() {
+                        ep.interest.remove(&g);
+                        ep.seen.remove(&g);
+                    }
+                }
+                self.conns[c].extra_refs = 0;
+                if ghost {
+                    self.ep_close(c, true);
+                }
+            }
+        }
     }
 
     fn take_fault(&mut self, sys: Sys, conn: Option<usize>) -> Option<i32> {
@@ -313,6 +363,7 @@ impl World {
             backlog: VecDeque::new(),
             open: true,
             activity: 0,
+            nonblocking: false,
         });
         let fd = self.alloc_fd(FdObj::Listener(self.listeners.len() - 1));
         self.push_log(LogEntry::Bind { fd });
@@ -337,6 +388,9 @@ impl World {
                 Ok(Some(fd))
             }
             None => {
+                if self.listeners[lid].nonblocking {
+                    return Err(libc::EAGAIN);
+                }
                 self.push_log(LogEntry::AcceptBlocked);
                 Ok(None)
             }
@@ -361,6 +415,7 @@ impl World {
             server_fd: None,
             srv_read: 0,
             srv_written: 0,
+            extra_refs: 0,
         });
         let id = self.conns.len() - 1;
         self.listeners[lid].backlog.push_back(id);
@@ -562,6 +617,10 @@ impl World {
                 self.events[e].nonblocking = nb;
                 Ok(())
             }
+            Some(FdObj::Listener(l)) => {
+                self.listeners[l].nonblocking = nb;
+                Ok(())
+            }
             Some(_) => Ok(()),
             None => Err(libc::EBADF),
         }
@@ -649,6 +708,24 @@ impl World {
             None => return,
         };
         self.fds[fd as usize] = None;
+        if let FdObj::Stream(c) = obj {
+            if self.conns[c].extra_refs > 0 {
+                // another reference to the open file description exists: registrations stay (under
+                // a number nobody can name), the connection stays open
+                let g = GHOST_BASE + c as Fd;
+                for ep in self.epolls.iter_mut() {
+                    if let Some(e) = ep.interest.remove(&fd) {
+                        ep.interest.insert(g, e);
+                    }
+                    if let Some(a) = ep.seen.remove(&fd) {
+                        ep.seen.insert(g, a);
+                    }
+                }
+                self.conns[c].server_fd = None;
+                self.push_log(LogEntry::Close { fd, conn: Some(c) });
+                return;
+            }
+        }
         // a closed descriptor leaves every epoll interest list
         for ep in self.epolls.iter_mut() {
             ep.interest.remove(&fd);
